@@ -38,11 +38,16 @@ impl Oracle for C03 {
             // once the own removal is processed: inactive, cannot send
             let inactive = gv.record.as_ref().map(|r| r.state == "inactive").unwrap_or(false);
             let evicted = gv.mls.as_ref().map(|m| m.own_leaf.is_none() || !m.active).unwrap_or(false);
-            if evicted && !inactive {
+            // (an invitation to join again, received but not yet accepted, shows as "pending": not active)
+            let pending = gv.record.as_ref().map(|r| r.state == "pending").unwrap_or(false);
+            if evicted && !inactive && !pending {
                 viols.push(("evicted-but-record-not-inactive", format!("g{g} n{node}: MLS state has no own leaf but the record is {:?}", gv.record.as_ref().map(|r| r.state.clone()))));
             }
             if evicted {
                 self.evicted_nodes.insert((node, g));
+            } else if gv.mls.as_ref().map(|m| m.own_leaf.is_some() && m.active).unwrap_or(false) {
+                // joined again: a member like any other from here on
+                self.evicted_nodes.remove(&(node, g));
             }
         }
         // a client that was never invited to a group (and did not create it) never holds it
